@@ -318,8 +318,95 @@ Definition import_result (T : symtab) (d : dfile) : symtab * list ecls :=
     end
   end.
 
+(* ---- extension declarations (linker/validate.go validateExtension) ---- *)
+(* an extension range of the descriptor with its options as written; None = no options at all *)
+Record xrange := mkXRange { xr_rng : Z * Z; xr_opts : option xopts }.
+
+Definition body_xranges (body : list melem) : list xrange :=
+  let mt := match is_msgset body with MsYes => msgset_max | _ => field_max end in
+  flat_map (fun e => match e with
+                     | MExtensions rs => map (fun r => mkXRange (fst (msg_range r mt)) None) rs
+                     | MExtensionsOpt rs o => map (fun r => mkXRange (fst (msg_range r mt)) (Some o)) rs
+                     | _ => []
+                     end) body.
+
+(* every message of the source tree with its extension ranges, keyed by full name *)
+Fixpoint elem_xdecls (parent : name) (e : melem) {struct e} : list (name * list xrange) :=
+  match e with
+  | MMessage nm body => (qual parent nm, body_xranges body) :: flat_map (elem_xdecls (qual parent nm)) body
+  | MGroup _ nm _ body => (qual parent nm, body_xranges body) :: flat_map (elem_xdecls (qual parent nm)) body
+  | MOneof _ els => flat_map (elem_xdecls parent) els
+  | MExtend _ els => flat_map (elem_xdecls parent) els
+  | _ => []
+  end.
+
+Definition file_xdecls (f : sfile) : list (name * list xrange) :=
+  let p := match sf_package f with Some p => p | None => [] end in
+  flat_map (fun d => match d with TElem e => elem_xdecls p e | TService _ _ => [] end) (sf_decls f).
+
+Definition opt_name (o : option name) : name := match o with Some n => n | None => [] end.
+Definition opt_Z (o : option Z) : Z := match o with Some z => z | None => 0 end.
+
+(* the checks against the declaration that carries the number *)
+Definition decl_check (d : xdecl) (fullname tyname : name) (repeated : bool) : list ecls :=
+  if xd_reserved d then [EExtDeclReserved]
+  else (if name_eqb (opt_name (xd_full_name d)) (dotc :: fullname) then [] else [EExtDeclName])
+       ++ (if name_eqb (opt_name (xd_type d)) tyname then [] else [EExtDeclType])
+       ++ (if Bool.eqb (xd_repeated d) repeated then [] else [EExtDeclRepeated]).
+
+(* the inner loop over the declarations of one range: the first one with the number decides *)
+Fixpoint decl_loop (ds : list xdecl) (num : Z) (fullname tyname : name) (repeated : bool) : list ecls :=
+  match ds with
+  | [] => [EExtDeclMissing]
+  | d :: r => if opt_Z (xd_number d) =? num then decl_check d fullname tyname repeated
+              else decl_loop r num fullname tyname repeated
+  end.
+
+(* a range asks for declarations when it has some, or says verification = DECLARATION *)
+Definition demands (o : xopts) : bool :=
+  negb (match xo_decls o with [] => true | _ => false end)
+  || match xo_verification o with Some true => true | _ => false end.
+
+(* the loop over md.ExtensionRange as it is: ranges that do not contain the number are skipped;
+   a containing range without options, or one that does not ask for declarations, ends the loop;
+   after a checked range the loop goes on *)
+Fixpoint go_ext_decl_errs (xrs : list xrange) (num : Z) (fullname tyname : name) (repeated : bool) : list ecls :=
+  match xrs with
+  | [] => []
+  | x :: r =>
+    if (num <? fst (xr_rng x)) || (num >=? snd (xr_rng x)) then go_ext_decl_errs r num fullname tyname repeated
+    else match xr_opts x with
+         | None => []
+         | Some o =>
+           if demands o then decl_loop (xo_decls o) num fullname tyname repeated
+                             ++ go_ext_decl_errs r num fullname tyname repeated
+           else []
+         end
+  end.
+
+(* protoc: the range that contains the number is the one consulted *)
+Definition spec_ext_decl_errs (xrs : list xrange) (num : Z) (fullname tyname : name) (repeated : bool) : list ecls :=
+  match find (fun x => in_ho_b num (xr_rng x)) xrs with
+  | None => []
+  | Some x => match xr_opts x with
+              | Some o => if demands o then decl_loop (xo_decls o) num fullname tyname repeated else []
+              | None => []
+              end
+  end.
+
+(* protoreflect.Kind.String() *)
+Definition scalar_name (s : scalar) : name :=
+  match s with
+  | SDouble => [100;111;117;98;108;101] | SFloat => [102;108;111;97;116] | SInt64 => [105;110;116;54;52]
+  | SUint64 => [117;105;110;116;54;52] | SInt32 => [105;110;116;51;50] | SFixed64 => [102;105;120;101;100;54;52]
+  | SFixed32 => [102;105;120;101;100;51;50] | SBool => [98;111;111;108] | SString => [115;116;114;105;110;103]
+  | SBytes => [98;121;116;101;115] | SUint32 => [117;105;110;116;51;50] | SSfixed32 => [115;102;105;120;101;100;51;50]
+  | SSfixed64 => [115;102;105;120;101;100;54;52] | SSint32 => [115;105;110;116;51;50] | SSint64 => [115;105;110;116;54;52]
+  end%N.
+
 (* ---- what a file can see ---- *)
-Record cfile := mkCFile { cf_name : name; cf_desc : dfile; cf_syms : list sym }.
+Record cfile := mkCFile { cf_name : name; cf_desc : dfile; cf_syms : list sym;
+                         cf_xdecls : list (name * list xrange) }.
 
 Fixpoint find_cfile (n : name) (cs : list cfile) : option cfile :=
   match cs with [] => None | c :: r => if name_eqb n (cf_name c) then Some c else find_cfile n r end.
@@ -357,9 +444,10 @@ Definition all_visible_syms (cs : list cfile) (d : dfile) : list sym :=
    walk, or protoc's LookupSymbol as specified in Model/ProtocLookup.v, equal by C15). *)
 Record cfg := mkCfg {
   c_spec_lookup : bool;      (* resolve names with Spec.lookup instead of go_resolve *)
-  c_protoc_json : bool       (* JSON-name conflicts as protoc's CheckFieldJsonNameUniqueness *)
+  c_protoc_json : bool;      (* JSON-name conflicts as protoc's CheckFieldJsonNameUniqueness *)
+  c_spec_extdecl : bool      (* extension declarations: the containing range, not the Go loop *)
 }.
-Definition go_cfg : cfg := mkCfg false false.
+Definition go_cfg : cfg := mkCfg false false false.
 
 Definition sres_to_gres (r : ProtocLookup.Spec.sres) : Resolve.gres :=
   match r with
@@ -379,7 +467,7 @@ Definition resolve_ref (c : cfg) (U : Resolve.universe) (path : list name) (elem
 
 (* ---- resolveFieldTypes ---- *)
 Record lctx := mkLCtx { lc_cfg : cfg; lc_files : list cfile; lc_self : dfile; lc_U : Resolve.universe;
-                        lc_vis : list sym }.
+                        lc_vis : list sym; lc_xdecls : list (name * list xrange) }.
 
 Definition info_of (L : lctx) (n : name) : sinfo :=
   match find_sym n (lc_vis L) with Some s => s_info s | None => INone end.
@@ -516,7 +604,7 @@ Definition resolve_service (L : lctx) (s : dservice) : dservice * list ecls :=
 
 (* resolveReferences *)
 Definition resolve_file (c : cfg) (cs : list cfile) (X : extnums) (d : dfile) : dfile * extnums * list ecls :=
-  let L := mkLCtx c cs d (universe_of cs d) (all_visible_syms cs d) in
+  let L := mkLCtx c cs d (universe_of cs d) (all_visible_syms cs d) [] in
   let '(msgs, X1, e1) := resolve_msgs L X (dfl_msgs d) in
   let '(exts, X2, e2) := resolve_fields L [] true X1 (dfl_exts d) in
   let svcs := map (resolve_service L) (dfl_services d) in
@@ -649,7 +737,7 @@ Fixpoint options_msg (L : lctx) (m : dmsg) : dmsg * list ecls :=
 
 (* interpretFileOptions: messages, then file-level extensions *)
 Definition options_file (c : cfg) (cs : list cfile) (d : dfile) : dfile * list ecls :=
-  let L := mkLCtx c cs d (universe_of cs d) (all_visible_syms cs d) in
+  let L := mkLCtx c cs d (universe_of cs d) (all_visible_syms cs d) [] in
   let ms := map (options_msg L) (dfl_msgs d) in
   let '(x1, e2) := map_fields_errs (pseudo_options L) (dfl_exts d) in
   (mkDFile (dfl_name d) (dfl_package d) (dfl_syntax d) (dfl_deps d) (dfl_public d) (dfl_weak d)
@@ -725,7 +813,13 @@ Definition validate_enum_link (syn : syntax) (e : denum) : list ecls :=
   ++ enum_json_loop (json_compliant syn) (de_name e) [] (de_values e).
 
 (* validateField of linker/validate.go, including validateExtension *)
-Definition validate_field_link (L : lctx) (fd : dfield) : list ecls :=
+Definition field_type_name (fd : dfield) : name :=
+  match df_type fd with
+  | Some (DScalar s) => scalar_name s
+  | _ => opt_name (df_type_name fd)
+  end.
+
+Definition validate_field_link (L : lctx) (parent : name) (fd : dfield) : list ecls :=
   let syn := dfl_syntax (lc_self L) in
   (match df_type fd, df_type_name fd with
    | Some DEnum, Some (_ :: tn) =>
@@ -761,27 +855,37 @@ Definition validate_field_link (L : lctx) (fd : dfield) : list ecls :=
           ++ (if is_label (df_label fd) DRepeated then [EMsgsetRepeatedExt] else [])
         else if field_max <? df_number fd then [ETagTooHigh] else []
       | _ => []
+      end)
+  ++ (* validateExtension: the declarations of the extendee *)
+     (match df_extendee fd with
+      | Some (_ :: x) =>
+        let xrs := match assoc_name x (lc_xdecls L) with Some l => l | None => [] end in
+        (if c_spec_extdecl (lc_cfg L) then spec_ext_decl_errs else go_ext_decl_errs)
+          xrs (df_number fd) (qual parent (df_name fd)) (field_type_name fd) (is_label (df_label fd) DRepeated)
+      | _ => []
       end).
 
 (* walk.Descriptors with validateField / validateMessage / validateEnum *)
-Fixpoint validate_msg_link (L : lctx) (m : dmsg) : list ecls :=
+Fixpoint validate_msg_link (L : lctx) (parent : name) (m : dmsg) : list ecls :=
   match m with
-  | DMsg _ fields nested enums exts _ _ _ _ _ _ =>
+  | DMsg nm fields nested enums exts _ _ _ _ _ _ =>
+    let fq := qual parent nm in
     (if c_protoc_json (lc_cfg L)
      then map (fun _ => EJsonConflict)
               (protoc_json_errors to_json_name (json_compliant (dfl_syntax (lc_self L))) (map jf_of fields))
      else json_conflict_errs (json_compliant (dfl_syntax (lc_self L))) fields)
-    ++ flat_map (validate_field_link L) fields
-    ++ flat_map (validate_msg_link L) nested
+    ++ flat_map (validate_field_link L fq) fields
+    ++ flat_map (validate_msg_link L fq) nested
     ++ flat_map (validate_enum_link (dfl_syntax (lc_self L))) enums
-    ++ flat_map (validate_field_link L) exts
+    ++ flat_map (validate_field_link L fq) exts
   end.
 
-Definition validate_options (c : cfg) (cs : list cfile) (d : dfile) : list ecls :=
-  let L := mkLCtx c cs d (universe_of cs d) (all_visible_syms cs d) in
-  flat_map (validate_msg_link L) (dfl_msgs d)
+Definition validate_options (c : cfg) (cs : list cfile) (xself : list (name * list xrange)) (d : dfile) : list ecls :=
+  let L := mkLCtx c cs d (universe_of cs d) (all_visible_syms cs d)
+                  (xself ++ flat_map cf_xdecls (visible_deps cs d)) in
+  flat_map (validate_msg_link L (pkg_of d)) (dfl_msgs d)
   ++ flat_map (validate_enum_link (dfl_syntax d)) (dfl_enums d)
-  ++ flat_map (validate_field_link L) (dfl_exts d).
+  ++ flat_map (validate_field_link L (pkg_of d)) (dfl_exts d).
 
 (* ------------------------------------------------------------------------------------------ *)
 (* Part 5: the pipeline *)
@@ -815,9 +919,9 @@ Definition compile_file (st : cstate) (f : sfile) : cstate * fres :=
           match e3 with
           | e :: _ => fail st1 (FErr e)
           | [] =>
-            match validate_options go_cfg (st_done st) d2 with
+            match validate_options go_cfg (st_done st) (file_xdecls f) d2 with
             | e :: _ => fail st1 (FErr e)
-            | [] => (mkCState T X (st_done st ++ [mkCFile (sf_name f) d2 (file_syms d2)]) (st_failed st), FOk d2)
+            | [] => (mkCState T X (st_done st ++ [mkCFile (sf_name f) d2 (file_syms d2) (file_xdecls f)]) (st_failed st), FOk d2)
             end
           end
         end
